@@ -1099,6 +1099,56 @@ FIXTURES = {
 }
 
 
+def r7_9(ctx):
+    """a warning never hides an error.  The sub-lexers keep one status per parse: a
+    warning routine stores a warning code in it when it is still ERROR_SUCCESS, the error
+    routine stores the error unless an earlier *error* is already there.  Every code the
+    warning routine of a lexer can store must therefore be one the error routine of the same
+    lexer treats as "nothing worse happened yet" and overwrites; otherwise an unknown escape
+    followed by a real syntax error leaves the warning as the parse's result and the caller
+    goes on with a failed parse."""
+    prog = ctx.prog
+    n = 0
+    for tu in prog.tus.values():
+        warn = [f for f in tu.fn_list if f.name.endswith('yywarning')]
+        err = [f for f in tu.fn_list if f.name.endswith('yyerror')]
+        if not warn or not err:
+            continue
+
+        def status_stores(f):
+            out = []
+            for x in f.all_nodes():
+                if x['k'] == 'bin' and x['op'] == '=':
+                    l = cu.strip_casts(f, f.kid(x, 0))
+                    if l is not None and l['k'] == 'member' and l['fld'] == 'last_error':
+                        out.append((x, cu.const_of(cu.strip_casts(f, f.kid(x, 1)))))
+            return out
+        wcodes = set(v for _, v in status_stores(warn[0]) if v is not None)
+        ef = err[0]
+        for st, _ in status_stores(ef):
+            # the codes under which the error routine overwrites the status
+            allowed = set()
+            for a in ef.ancestors(st):
+                if a['k'] == 'if' and any(y is st for y in ef.walk(ef.kid(a, 1))):
+                    for c in ef.walk(ef.kid(a, 0)):
+                        if c['k'] == 'bin' and c['op'] == '==':
+                            for x, y in ((ef.kid(c, 0), ef.kid(c, 1)), (ef.kid(c, 1), ef.kid(c, 0))):
+                                xs = cu.strip_casts(ef, x)
+                                if xs is not None and xs['k'] == 'member' and xs['fld'] == 'last_error':
+                                    v = cu.const_of(cu.strip_casts(ef, y))
+                                    if v is not None:
+                                        allowed.add(v)
+            n += 1
+            missing = sorted(w for w in wcodes if w not in allowed and w != 0)
+            ctx.ob('R7.9', '%s:warning-codes-overwritable' % ef.name, not missing, ef.loc(st),
+                   'the error routine overwrites every status the warning routine can leave (%s)' %
+                   sorted(wcodes) if not missing else
+                   '%s can leave status %s, which %s does not overwrite: a warning followed by a syntax '
+                   'error ends the parse with the warning as its result, and the caller continues with a '
+                   'failed parse' % (warn[0].name, missing, ef.name))
+    ctx.count('lexers_with_warnings', n)
+
+
 def run(ctx):
     r7_1(ctx)
     ctx.floor('R7.1', 40)
@@ -1120,3 +1170,5 @@ def run(ctx):
     ctx.floor('R7.7', 3)
     r7_8(ctx)
     ctx.floor('R7.8', 2)
+    r7_9(ctx)
+    ctx.floor('R7.9', 1)
